@@ -28,11 +28,13 @@ static Verdict run(const Case &c) {
     std::set<Mac> forbidden_edst;  // third-station destinations A emitted to
     int towards_b = 0, towards_third = 0;
     std::set<std::pair<int, uint64_t>> kinds_b;
+    // cfg[11]: the mapper's frames reach A through station B acting as the bridge - their Ethernet source is B's address (A's next hop towards the mapper is B itself)
+    const Mac MA = c.c(11) ? B : M;
     if (c.c(10)) {   // the mapper's first contact is a quick-discovery Discover (ToS 1); its topology session follows without a Reset in between
-        (void)w.deliver(ia, mk_discover(M, M, 1, 1, (uint16_t)c.c(10), {}));
+        (void)w.deliver(ia, mk_discover(MA, M, 1, 1, (uint16_t)c.c(10), {}));
         (void)w.deliver(ib, mk_discover(M, M, 1, 1, (uint16_t)c.c(10), {}));
     }
-    (void)w.deliver(ia, mk_discover(M, M, 0, 1, 1, {}));
+    (void)w.deliver(ia, mk_discover(MA, M, 0, 1, 1, {}));
     (void)w.deliver(ib, mk_discover(M, M, 0, 1, 1, {}));
     if (ic3 >= 0) (void)w.deliver(ic3, mk_discover(M, M, 0, 1, 1, {}));
     bool queried = false;
@@ -72,7 +74,7 @@ static Verdict run(const Case &c) {
                 uint16_t seq = (uint16_t)op.arg(0);   // 0 included: an Emit that asks for no acknowledgement is carried out all the same
                 // what the mapper orders must show up in B's report (C06 obliges A to emit it); checked in addition to what A really put on the wire
                 for (auto &e : d) if (e.dst == B) must.insert(QDesc{0, A, e.src, B});
-                std::vector<Ev> tx = sends_only(w.deliver(ia, mk_emit(A, M, A, M, seq, d)));
+                std::vector<Ev> tx = sends_only(w.deliver(ia, mk_emit(A, MA, A, M, seq, d)));
                 // shared segment: every frame A put on the wire reaches B unmodified (and A itself)
                 for (auto &e : tx) {
                     Hdr hd;
@@ -94,9 +96,11 @@ static Verdict run(const Case &c) {
                         : k == 2 ? mk_simple(A, third(1), 0, OP_TRAIN, A, third(1), 0)
                         : k == 5 ? mk_simple(B, srcsel(1 + (int)(op.arg(1, 1) & 1)), 0, OP_PROBE, B, third(1), 0)   // unrelated probe to B whose Ethernet source coincides with a source A is told to spoof
                         : k == 6 ? mk_discover(M, M, (uint8_t)(op.arg(1) & 1), (uint16_t)(op.arg(1) >> 1), (uint16_t)op.arg(2), k == 6 && (op.arg(1) & 2) ? std::vector<Mac>{A, B} : std::vector<Mac>{})   // the mapper repeats its Discover (either service, any generation, acknowledging or not)
+                        : k == 8 ? Bytes()   // (no frame: the clock moves on by more than a minute - see below)
                         : k == 7 ? mk_simple(BCAST, M, 1, OP_RESET, BCAST, M, 0)     // the mapper resets its quick-discovery session: topology observations stay
                         : k == 3 ? mk_qlt(A, third(2), A, third(2), (uint16_t)op.arg(1, 1), 0x11, 0, 1)     // quick-discovery request from another station
                                  : mk_qlt(A, M, A, M, (uint16_t)op.arg(1, 1), 0x0E, 0, 0);                  // the mapper fetches the icon in between
+                if (k == 8) { vp_set_now_ms(vp_now_ms() + (uint64_t)(op.arg(1, 1) % 3 == 0 ? 30000 : 61000 + (op.arg(1, 1) % 7) * 10000)); break; }   // what B observed waits for the Query however long that takes
                 if (k == 6 || k == 7) {   // broadcasts reach everybody: A, then C, then B
                     (void)w.deliver(ia, f); if (ic3 >= 0) (void)w.deliver(ic3, f); (void)w.deliver(ib, f);
                     if (k == 7) { Bytes d = mk_discover(M, M, 0, 2, 1, {}); (void)w.deliver(ia, d); if (ic3 >= 0) (void)w.deliver(ic3, d); (void)w.deliver(ib, d); }   // ... and M opens its topology session again at once (it stays the mapper)
@@ -133,6 +137,7 @@ int main(int argc, char **argv) {
         c.cfg.push_back(0x020000000000LL | *gx::range<int64_t>(1, 0xFFFFFF));   // B's address (cfg[8])
         c.cfg.push_back(*gx::pick({1, 1, 1, 0}));                                 // a third responder on the segment (cfg[9])
         c.cfg.push_back(*gx::pick({0, 0, 0, 1, 7}));                              // first contact through quick discovery with this generation (cfg[10], 0 = no)
+        c.cfg.push_back(*gx::pick({0, 0, 0, 1}));                                 // the mapper reaches A through B (cfg[11])
         if (*gx::chance(20)) {
             // capacity family: A emits about as many frames with pairwise distinct sources towards B as one QueryResp of B holds, then B is queried
             size_t capq = (h.mtu - 34) / 20, cape = (h.mtu - 34) / 14;
@@ -163,7 +168,7 @@ int main(int argc, char **argv) {
                     o.blob.push_back((uint8_t)*gx::pick({0, 0, 0, 1, 2, 200, 250, 101, 102, 1, 2}));
                     o.blob.push_back((uint8_t)*gx::pick({0, 0, 0, 1, 2, 3}));
                 }
-            } else if (k <= 7) { o.kind = K_NOISE; o.a = {*gx::range<int64_t>(0, 7), *hg::seq_gen(), *hg::gen_gen()}; }
+            } else if (k <= 7) { o.kind = K_NOISE; o.a = {*gx::range<int64_t>(0, 8), *hg::seq_gen(), *hg::gen_gen()}; }
             else { o.kind = K_QUERY_B; o.a = {*hg::seq_gen()}; }
             return o;
         })));
